@@ -1,5 +1,8 @@
-"""C15 — conversions and predicates. proof: Props/C15.lean over Model/Conv.lean (+ generated toU64/equal/is*);
-tie: correspondence with the compiled conversions (GMP included) on boundary-directed integers in every radix."""
+"""C15 — conversions and predicates. proof: Props/C15.lean over Model/Conv.lean (+ generated toU64/equal/is*) and, through the
+bridge theorems of Lemmas/BridgeConv.lean (`C15_generated_*`), over Gen/ConvGen.lean = the conversions TRANSLATED from
+goldilocks_base_field_tools.hpp on every run (mpz mode of tools/tr_cxx.py; DESIGN.CONV.md);
+tie: correspondence with the compiled conversions (GMP included) on boundary-directed integers in every radix, for the hand
+model AND for the generated functions."""
 from common import *
 
 PID = "C15"
@@ -63,6 +66,7 @@ def make_cases(seed, n):
             add("%s %x s:%s" % (fn, radix, to_radix(x, radix, rng)), fn,
                 (lambda v, x=x: (len(v) == 1 and v[0] % P == x % P and v[0] < P, "residue %x" % (x % P))),
                 "neg<-p" if x < -P else ("big" if abs(x) > (1 << 64) else ("neg" if x < 0 else None)))
+            cases[-1]["int"] = x
         elif k == 3:
             x = rng.choice([0, 1, -1, (1 << 63) - 1, -(1 << 63), (P - 1) // 2, -(P - 1) // 2, -((P - 1) // 2) - 1, 1 << 62]) + rng.below(3) - 1 if rng.below(2) else rng.next() - (1 << 63)
             x = max(-(1 << 63), min((1 << 63) - 1, x))
@@ -108,12 +112,76 @@ def make_cases(seed, n):
     return cases
 
 
+GEN_PREFIX = "g_"      # wire names of the ConvGen entries (tools/modules.py: dispatch_prefix)
+BAD_NUMERALS = [(10, "12a"), (10, ""), (10, "-"), (10, "1-2"), (10, "--5"), (2, "102"), (16, "fg"), (36, "a_b"), (8, "78"),
+                (10, "0x10"), (10, "5."), (35, "z")]
+
+
+def generated_cases(cases, names, seed):
+    """the requests of the hand-modelled conversions addressed to the TRANSLATED functions of Gen/ConvGen.lean (every
+    overload): implementation vs generated model vs specification on the same inputs.  `result` reference parameters
+    that the C++ reads or may leave untouched (toS64, toS32) are inputs of the generated function: a random previous
+    value is passed and must come back unchanged when toS32 fails."""
+    rng = Rng(seed ^ 0x6C15)
+    out = []
+
+    def emit(c, nm, toks, expect=None, expect_str=None, **kw):
+        g = {"line": "%s%s %s" % (GEN_PREFIX, nm, " ".join(toks)), "key": c["key"] + "/generated:" + nm, "tag": c.get("tag"),
+             "expect": expect if expect is not None else c.get("expect")}
+        if expect_str is not None:
+            g["expect_str"] = expect_str
+        g.update(kw)
+        out.append(g)
+    for c in cases:
+        toks = c["line"].split()
+        op = toks[0]
+        for nm in names:
+            if op in ("fromS64", "fromS32") and nm.startswith(op + "__"):
+                emit(c, nm, toks[1:])
+            elif op == "fromString" and nm.startswith("fromString__"):
+                emit(c, nm, [toks[2], toks[1]])                       # (in1, radix)
+            elif op == "fromScalar" and nm.startswith("fromScalar__") and "int" in c:
+                x = c["int"]
+                emit(c, nm, ["s:%s%x" % ("-" if x < 0 else "", abs(x))])       # the mpz_class argument itself
+            elif op == "toS64" and nm == "toS64__rE":
+                emit(c, nm, toks[1:])
+            elif op == "toS64" and nm.startswith("toS64__") and nm != "toS64__rE":
+                emit(c, nm, [hx(rng.next()), toks[1]])                  # (result before the call, in1)
+            elif op == "toS32" and nm == "toS32":
+                r0 = rng.next() & 0xFFFFFFFF
+                r0s = r0 - (1 << 32) if r0 >> 31 else r0
+                e0 = c["expect"]
+                emit(c, nm, [hx(r0), toks[1]],
+                     expect=(lambda v, e0=e0, r0s=r0s: ((e0([1, v[1]]) if (len(v) == 2 and v[0] == 1) else
+                                                        ((e0([0])[0] and v == [0, s64(r0s)]), e0([0])[1] + "; result untouched on failure"))
+                                                       if len(v) == 2 else (False, "flag and value"))))
+            elif op == "toString" and nm.startswith("toString__"):
+                emit(c, nm, toks[1:], expect_str=c["expect_str"])
+    # numerals the parser refuses: the C++ constructor throws std::invalid_argument (nobody catches it: SIGABRT in the
+    # forked child), the generated function returns `none`
+    for nm in names:
+        if nm.startswith("fromString__"):
+            for radix, txt in BAD_NUMERALS:
+                out.append({"line": "!%s%s s:%s %x" % (GEN_PREFIX, nm, txt, radix), "key": "fromString-refusal/generated:" + nm,
+                            "tag": "refused", "expect": None, "refusal": True})
+    return out
+
+
 def campaign(res, harness, driver, cases, flavour):
     lines = [c["line"] for c in cases]
     impl = run_parallel(harness, lines)
     model = run_parallel(driver, lines)
     for c, ri, rm in zip(cases, impl, model):
         res.note_case(c["line"], c.get("tag"))
+        if c.get("refusal"):
+            # process ended on both sides: uncaught exception (abort) vs `none`
+            if ri == "err signal 6" and rm == "err exit 255":
+                res.traces += 1
+            else:
+                res.broken.append(("correspondence %s: implementation != generated model" % c["key"],
+                                   "line: %s\nimpl : %s (expected err signal 6 = uncaught std::invalid_argument)\nmodel: %s "
+                                   "(expected err exit 255 = none)" % (c["line"][:500], (ri or "")[:300], (rm or "")[:300])))
+            continue
         if "expect_str" in c:
             if ri != c["expect_str"]:
                 res.failures.append({"key": c["key"], "lines": [c["line"]], "expected": c["expect_str"], "observed": ri,
@@ -140,9 +208,15 @@ def run(tier, seed):
                 "on boundary words incl. non-canonical ones; predicates on both members of a residue class; "
                 "non-trivial = negative / below -p / beyond 2^64 / non-canonical / type-boundary case")
     res.assumptions = ["GMP is modelled, not verified: `%` on mpz_class = truncated remainder, get_ui = low 64 bits of |x|, "
-                       "numeral parsing = the integer the numeral denotes (only well-formed numerals are generated)"]
+                       "numeral parsing = the integer the numeral denotes (only well-formed numerals are generated for the "
+                       "hand model; a dozen refused numerals for the generated fromString)",
+                       "C15_generated_*: about Gen/ConvGen.lean, translated from goldilocks_base_field_tools.hpp on every run "
+                       "(mpz_class arithmetic -> Int, get_ui/get_si stated in Model/TrMpz.lean); GMP's numeral parser and "
+                       "printer stay modelled (externs Mpz.ofString = Model.parseInt, Mpz.getStr = Model.toDigitsR); the "
+                       "generated functions are executed against the code as well"]
     st = run_gen()
-    standard_proof_phase(res, MODULE, "C15_", st, ["Scalar"], thorough=(tier == "thorough"))
+    standard_proof_phase(res, MODULE, "C15_", st, ["Scalar", "ConvGen"], thorough=(tier == "thorough"))
+    gen_names = [nm for nm in (st.get("modules", {}).get("ConvGen", {}) or {}).get("names", []) if "_loop" not in nm]
     drv, err = build_driver()
     if err:
         res.broken.append(("model driver build", err))
@@ -154,5 +228,6 @@ def run(tier, seed):
             res.broken.append(("harness build (%s)" % fl, err))
             continue
         if drv:
-            campaign(res, h, drv, make_cases(seed + len(fl), n if fl != "asan" else n // 10), fl)
+            cases = make_cases(seed + len(fl), n if fl != "asan" else n // 10)
+            campaign(res, h, drv, cases + generated_cases(cases[:max(2000, len(cases) // 4)], gen_names, seed), fl)
     return res.finish()
